@@ -153,6 +153,32 @@ def quiet():
         sys.stdout = old
 
 
+@contextlib.contextmanager
+def package(bucket, accept=()):
+    """Run compmech code: stdout swallowed; an exception raised by the package on an input for which the
+    property promises a value is a violation (not a harness error).  `accept`: documented exception types
+    that are an accepted outcome (re-raised unchanged for the caller to handle)."""
+    old = sys.stdout
+    sys.stdout = io.StringIO()
+    try:
+        yield
+    except Violation:
+        raise
+    except accept:
+        raise
+    except Exception as e:
+        import traceback
+        tb = traceback.extract_tb(e.__traceback__)
+        where = ''
+        for fr in reversed(tb):
+            if 'compmech' in fr.filename or '/repo/' in fr.filename:
+                where = ' at %s:%d' % (os.path.basename(fr.filename), fr.lineno)
+                break
+        raise Violation(bucket + '.raises', '%s: %s%s' % (type(e).__name__, str(e)[:300], where))
+    finally:
+        sys.stdout = old
+
+
 def jsonable(x):
     if isinstance(x, dict):
         return {str(k): jsonable(v) for k, v in x.items()}
